@@ -1,6 +1,38 @@
--- shard 1 of the closeness / tick-gap sweep (C06 (c), (e)): |tick| in [32768, 65536)
+-- shard 1 of the closeness / tick-gap sweep (C06 (c), (e)): |tick| in [32768, 65536), 16 blocks of 2^11
 import Proofs.Lemmas.ClosePred
 namespace Demeter.TickClose
 set_option maxRecDepth 100000 in
-theorem close_shard_01 : chkN closeSweepPred 32768 shardBits = true := by decide +kernel
+theorem close_blk_32768 : chkN closeSweepPred 32768 11 = true := by decide +kernel
+set_option maxRecDepth 100000 in
+theorem close_blk_34816 : chkN closeSweepPred 34816 11 = true := by decide +kernel
+set_option maxRecDepth 100000 in
+theorem close_blk_36864 : chkN closeSweepPred 36864 11 = true := by decide +kernel
+set_option maxRecDepth 100000 in
+theorem close_blk_38912 : chkN closeSweepPred 38912 11 = true := by decide +kernel
+set_option maxRecDepth 100000 in
+theorem close_blk_40960 : chkN closeSweepPred 40960 11 = true := by decide +kernel
+set_option maxRecDepth 100000 in
+theorem close_blk_43008 : chkN closeSweepPred 43008 11 = true := by decide +kernel
+set_option maxRecDepth 100000 in
+theorem close_blk_45056 : chkN closeSweepPred 45056 11 = true := by decide +kernel
+set_option maxRecDepth 100000 in
+theorem close_blk_47104 : chkN closeSweepPred 47104 11 = true := by decide +kernel
+set_option maxRecDepth 100000 in
+theorem close_blk_49152 : chkN closeSweepPred 49152 11 = true := by decide +kernel
+set_option maxRecDepth 100000 in
+theorem close_blk_51200 : chkN closeSweepPred 51200 11 = true := by decide +kernel
+set_option maxRecDepth 100000 in
+theorem close_blk_53248 : chkN closeSweepPred 53248 11 = true := by decide +kernel
+set_option maxRecDepth 100000 in
+theorem close_blk_55296 : chkN closeSweepPred 55296 11 = true := by decide +kernel
+set_option maxRecDepth 100000 in
+theorem close_blk_57344 : chkN closeSweepPred 57344 11 = true := by decide +kernel
+set_option maxRecDepth 100000 in
+theorem close_blk_59392 : chkN closeSweepPred 59392 11 = true := by decide +kernel
+set_option maxRecDepth 100000 in
+theorem close_blk_61440 : chkN closeSweepPred 61440 11 = true := by decide +kernel
+set_option maxRecDepth 100000 in
+theorem close_blk_63488 : chkN closeSweepPred 63488 11 = true := by decide +kernel
+theorem close_shard_01 : chkN closeSweepPred 32768 shardBits = true :=
+  (chkN_join _ 32768 14 (chkN_join _ 32768 13 (chkN_join _ 32768 12 (chkN_join _ 32768 11 close_blk_32768 close_blk_34816) (chkN_join _ 36864 11 close_blk_36864 close_blk_38912)) (chkN_join _ 40960 12 (chkN_join _ 40960 11 close_blk_40960 close_blk_43008) (chkN_join _ 45056 11 close_blk_45056 close_blk_47104))) (chkN_join _ 49152 13 (chkN_join _ 49152 12 (chkN_join _ 49152 11 close_blk_49152 close_blk_51200) (chkN_join _ 53248 11 close_blk_53248 close_blk_55296)) (chkN_join _ 57344 12 (chkN_join _ 57344 11 close_blk_57344 close_blk_59392) (chkN_join _ 61440 11 close_blk_61440 close_blk_63488))))
 end Demeter.TickClose
